@@ -255,11 +255,15 @@ def apply_op(c, tr, op):
     raise KeyError(k)
 
 
-def run_op(c, doc_node, op):
-    """Fresh Transform(doc) + op.  Returns (status, tr, exc):
+def run_op(c, doc_node, op, prep=None):
+    """Fresh Transform(doc) (+ prep(tr): earlier steps through the same Transform) + op.  Returns (status, tr, exc):
     status in 'ok' | 'noop' | 'rejected' (ValueError family) | 'internal' | 'n/a'."""
     tr = adapters.Transform(doc_node)
+    before = 0
     try:
+        if prep is not None:
+            prep(tr)
+            before = len(tr.steps)
         apply_op(c, tr, op)
     except NotEnabled as e:
         return ("n/a", tr, e)
@@ -273,4 +277,4 @@ def run_op(c, doc_node, op):
         if isinstance(e, Watchdog):
             raise
         return ("internal", tr, e)
-    return ("ok" if tr.steps else "noop", tr, None)
+    return ("ok" if len(tr.steps) > before else "noop", tr, None)
